@@ -2,7 +2,7 @@ package types
 
 import (
 	"reflect"
-	"sync"
+	"sync/atomic"
 )
 
 const (
@@ -187,7 +187,8 @@ func (e *emmiter) Listeners(evt EventName) []Listener {
 }
 
 type oneTimeListener struct {
-	fired *sync.Once
+	fired atomic.Bool
+	entry *eventEntry
 
 	evt     EventName
 	emitter *emmiter
@@ -195,10 +196,18 @@ type oneTimeListener struct {
 }
 
 func (l *oneTimeListener) execute(vals ...any) {
-	l.fired.Do(func() {
-		defer l.emitter.RemoveListener(l.evt, l.fn)
-		l.fn(vals...)
-	})
+	// claim the single run first (no lock is held while fn runs, so fn may
+	// emit the same event again), then drop this very registration (not the
+	// first registration of fn), then invoke
+	if !l.fired.CompareAndSwap(false, true) {
+		return
+	}
+	if evtEntry, ok := l.emitter.evtListeners.Load(l.evt); ok {
+		evtEntry.RangeAndSplice(func(en *eventEntry, i int) (bool, int, int, []*eventEntry) {
+			return en == l.entry, i, 1, nil
+		})
+	}
+	l.fn(vals...)
 }
 
 func (e *emmiter) Once(evt EventName, listeners ...Listener) error {
@@ -211,8 +220,9 @@ func (e *emmiter) Once(evt EventName, listeners ...Listener) error {
 		if event == nil {
 			continue
 		}
-		oneTime := &oneTimeListener{fired: &sync.Once{}, evt: evt, emitter: e, fn: event}
-		events = append(events, &eventEntry{fn: oneTime.execute, ptr: reflect.ValueOf(event).Pointer()})
+		oneTime := &oneTimeListener{evt: evt, emitter: e, fn: event}
+		oneTime.entry = &eventEntry{fn: oneTime.execute, ptr: reflect.ValueOf(event).Pointer()}
+		events = append(events, oneTime.entry)
 	}
 	return e.addListeners(evt, events)
 }
